@@ -473,6 +473,31 @@ Proof.
 Qed.
 
 (* ---------------------------------------------------------------------------------------------------------------
+   The value decoder tied to the source, and the agreement clause at source level.  CellBytes (all 23 cases of its
+   switch) is translated from /repo on every run (gen/TransCellBytes.v) and proved equal to the model function
+   cell_bytes for every input (C09_tie_CellBytes; flat forgets nil vs empty, premises: bytes, uint16 metadata, the
+   position is an index into the row data, fuel).  Composed with C09_tie_cellLength and C09_length_value_agree this gives
+   the clause "the per-type length rule and the per-type value decoder always agree on the size of a cell" about the
+   translations of BOTH Go functions, for all row data, positions, type codes and metadata
+   (C09_source_length_value_agree); the hand-written model occurs only in the proof. *)
+From GB Require Proofs.TransEquivCellBytesDefs Proofs.TransEquivCellBytes Proofs.SourceCells.
+From GBGen Require TransCellBytes.
+Theorem C09_tie_CellBytes : forall ffmt tz jsonp fuel d pos typ meta uns,
+  (1000 <= fuel)%nat -> wf_bytes d -> 0 <= meta < 65536 -> Z.of_nat pos < 2 ^ 62 -> (pos <= List.length d)%nat ->
+  res_sim (TransCellBytes.CellBytes_g ffmt (print_timestamp tz) jsonp fuel d (Z.of_nat pos) typ meta uns)
+          (TransEquivCellBytesDefs.flat (cell_bytes ffmt tz jsonp d pos typ meta uns)).
+Proof. exact TransEquivCellBytes.CellBytes_equiv. Qed.
+Print Assumptions C09_tie_CellBytes.
+
+Theorem C09_source_length_value_agree : forall ffmt tz jsonp fuel d pos typ meta uns t l,
+  (1000 <= fuel)%nat -> wf_bytes d -> 0 <= typ < 256 -> 0 <= meta < 65536 -> Z.of_nat pos < 2 ^ 62 -> (pos <= List.length d)%nat ->
+  (typ = K_TypeTimestamp2 \/ typ = K_TypeDateTime2 -> 0 <= meta <= 6) ->
+  TransCellBytes.CellBytes_g ffmt (print_timestamp tz) jsonp fuel d (Z.of_nat pos) typ meta uns = Ok (t, l) ->
+  cellLength_g d (Z.of_nat pos) typ meta = Ok l.
+Proof. exact SourceCells.source_length_value_agree. Qed.
+Print Assumptions C09_source_length_value_agree.
+
+(* ---------------------------------------------------------------------------------------------------------------
    Source pins.  The offset bookkeeping over an image (getValuesFromRow / getIdentifiesFromRow) and the place where a
    re-announced table id gets its new table map (parseEvents) are modelled by hand (Model/Streamer.v: closures, maps,
    interfaces - outside what gotrans translates); gosync regenerates their normalised text on every run and it must equal
